@@ -9,11 +9,15 @@ model checking:
            lts (closed, VIEW without history, both values of whitespace-separates-paragraphs):
                Totality and exclusiveness of the branch guards, BranchAgrees, EofRule (EOFError <=>
                empty payload => empty paragraph), PayloadClean, StoppedAbsorbing, DoneGrows.
-           bnd: every document of <= 3 paragraphs x <= 3 fields (<= 4 fields in all, thorough 5) x
-               {empty, non-empty first line} x 0..2 continuation lines: RoundTrip, ParseOneOk,
+           bnd: every document of <= 3 paragraphs x <= 3 fields with <= 3 fields in all (thorough: 4)
+               x {empty, non-empty first line} x 0..2 continuation lines: RoundTrip, ParseOneOk,
                CommentInvariant (a comment at any position; before every line), LeadingBlankInvariant,
-               TrailingInvariant, SeparatorInvariant, and for single paragraphs ArmorInvariant (armor
-               shapes x comments x leading/trailing lines) and GpgMvAgrees (Dsc/Changes pre-pass).
+               TrailingInvariant, SeparatorInvariant; single paragraphs of <= 2 (thorough 3) fields
+               inside armor: ArmorInvariant (armor shapes x comments x leading/trailing lines) and
+               GpgMvAgrees (Dsc/Changes pre-pass).  Thorough adds "wide" (all 3 x 3 documents over the
+               two value shapes "v" / "<empty> + 1 line") and "deep" (<= 5 fields in all: RoundTrip,
+               ParseOneOk, CommentInvariant).  The full 3 x 3 x 6-shape space of DESIGN.md has 1.7e7
+               documents and is not enumerated: the bound is on the total number of fields instead.
            Spec-level negative controls (each must make TLC report the named invariant):
                TrimFirst=FALSE -> RoundTrip, CommentEndsValue=TRUE -> CommentInvariant,
                LeadingBlankSkipped=FALSE -> LeadingBlankInvariant, ArmorHeadersSkipped=FALSE ->
@@ -25,12 +29,15 @@ binding:   (a) every CASE line of TLC (document P, Dump(P), Parse(Dump(P))) is c
                six input forms (str, bytes, list of lines with / without newlines, StringIO, BytesIO)
                with Deb822.iter_paragraphs(use_apt_pkg=False), Deb822(x), and for single paragraphs
                Dsc(x) / Changes(x);
-           (b) random documents (<= 8 paragraphs, comments anywhere, optional armor) are fed to the
-               real reader line-prefix by line-prefix; TLC (TraceDeb822Reader) replays the automaton
+           (b) random documents (seeded generator, <= 8 paragraphs, comments anywhere, several
+               separator lines, optional armor) are fed to the real reader line-prefix by line-prefix
+               in one of the six forms; TLC (TraceDeb822Reader) replays the automaton
                over the line classes and must explain every observation.
 verdict observables: list of (name, value) per paragraph == TLC's parse (first line trimmed,
            continuation lines verbatim) in every form; "\\n".join(p.dump()) of the re-parsed paragraphs
-           == dump of the expected paragraphs; no exception.
+           == dump of the expected paragraphs; no exception; every prefix observation explained by
+           the automaton (trace validation).  Corrupted control traces are hand-written (document,
+           wrong observation) pairs, independent of the code under test.
 unspecified / diagnostic (executed, recorded as spec_drift, never a violation): whitespace-only
            lines (leading, trailing, separators); Deb822(x) on a multi-paragraph document; junk /
            stray PGP lines (LTS walks); strict={'whitespace-separates-paragraphs': False};
@@ -42,10 +49,9 @@ domain:    names Policy-valid ([!-9;-~]+, not starting with '#' or '-', distinct
            is ASCII blank/tab; continuation lines start with blank/tab and contain a non-white
            character; never a DESIGN D1 character (CR VT FF FS GS RS NEL LS PS) inside a line.
 """
-import copy
 import io
-import os
 import json
+import os
 import random
 from concurrent.futures import ThreadPoolExecutor
 
@@ -54,7 +60,7 @@ from lts import LTS, skey
 
 MANIFEST = dict(
     technique="TLA+ spec Deb822Reader (line-class automaton of _skip_useless_lines + split_gpg_and_payload + _internal_parser + iter_paragraphs, inverse operator Dump, clearsign Armor) model-checked by TLC (closed automaton; all bounded documents); every TLC case replayed as real dump()+re-parse in six input forms x comments x armor; prefix-closed executions of the real reader validated by TLC (TraceDeb822Reader)",
-    text="The reader is specified as one automaton over eleven line classes with one named branch per branch of the code's loops. TLC checks on the closed automaton that the branch guards are total and exclusive and that EOFError coincides with an empty paragraph, and on every document of up to 3 paragraphs x 3 fields x values with empty/non-empty first line and 0-2 continuation lines that Parse(Dump(P)) = P, also with a comment line at any position or before every line, with leading/trailing/multiple separator lines, and (single paragraphs) inside clearsign armor of several shapes. Each enumerated document carries TLC's expected parse; it is concretized (odd but Policy-valid names, values starting with ':' '#' '-', padded first lines, colons / PGP look-alikes / trailing blanks in continuation lines, UTF-8 whose bytes contain 0x85/0xa0), built as Deb822 objects, dumped and read back through iter_paragraphs / Deb822 / Dsc / Changes in six input forms. In the other direction random documents of up to 8 paragraphs are parsed prefix by prefix by the real code and TLC must explain every intermediate result with the automaton.",
+    text="The reader is specified as one automaton over eleven line classes with one named branch per branch of the code's loops. TLC checks on the closed automaton that the branch guards are total and exclusive and that EOFError coincides with an empty paragraph, and on every document of up to 3 paragraphs x 3 fields (at most 3 fields in all in the quick tier, 4-5 in the thorough tier, plus all 3x3 documents over two value shapes) x values with empty/non-empty first line and 0-2 continuation lines that Parse(Dump(P)) = P, also with a comment line at any position or before every line, with leading/trailing/multiple separator lines, and (single paragraphs) inside clearsign armor of several shapes. Each enumerated document carries TLC's expected parse; it is concretized (odd but Policy-valid names, values starting with ':' '#' '-', padded first lines, colons / PGP look-alikes / trailing blanks in continuation lines, UTF-8 whose bytes contain 0x85/0xa0), built as Deb822 objects, dumped and read back through iter_paragraphs / Deb822 / Dsc / Changes in six input forms. In the other direction random documents of up to 8 paragraphs are parsed prefix by prefix by the real code and TLC must explain every intermediate result with the automaton.",
     note="Small-scope for the exhaustive part; payload text is sampled. Whitespace-only lines, junk lines, stray PGP lines and the non-default strictness flag are modelled and replayed but only diagnostic. Observation (unspecified for C02, recorded as drift): Dsc/Changes given a list or file whose leading comment is followed by a blank line lose the paragraph. Trusted: TLC, the concretizer (line class known by construction), the projection items()/value.split('\\n')/dump(). Five spec-level negative controls and corrupted control traces must fail.",
     design="5 (C02)")
 
@@ -447,7 +453,7 @@ def variants(rng, base, np_, full, armor_hdrs, armor_ok=True, sig_bools=(True, F
     if np_ == 1 and armor_ok:
         shapes = [{"nh": nh, "b": b, "sb": sb, "sh": sh} for nh in armor_hdrs for b in (True, False)
                   for sb in sig_bools for sh in sig_bools]
-        for shape in (shapes if full else rng.sample(shapes, 2)):
+        for shape in (shapes if full and len(base) <= 4 else rng.sample(shapes, min(len(shapes), 6 if full else 2))):
             tag = "armor[nh=%d,b=%d,sb=%d,sh=%d]" % (shape["nh"], shape["b"], shape["sb"], shape["sh"])
             a = armor_lines(rng, base, shape)
             yield tag, a, False
@@ -459,8 +465,8 @@ def variants(rng, base, np_, full, armor_hdrs, armor_ok=True, sig_bools=(True, F
             yield tag + "+lead-ws", lead_seq(rng, ws=True) + a, True
 
 
-def replay_case(ctx, case, rng, canonical, full, stats, armor_hdrs, armor_fields=3, sig_bools=(True, False)):
-    """returns list of (job, message) violations; drift goes to ctx"""
+def replay_case(drifts, case, rng, canonical, full, stats, armor_hdrs, armor_fields=3, sig_bools=(True, False)):
+    """returns list of (job, message) violations; diagnostic mismatches are appended to drifts"""
     conc = CaseConc(rng, case, canonical)
     np_ = len(case["doc"])
     orig = conc.paragraphs(case["doc"], padded=True)
@@ -477,7 +483,7 @@ def replay_case(ctx, case, rng, canonical, full, stats, armor_hdrs, armor_fields
     exp_json = [[list(kv) for kv in p] for p in expected]
     first_dump = build_and_dump(expected[:1])
     if textT != model_text:
-        ctx.drift("dump() differs from Dump(P) of the specification: %r vs %r" % (textT, model_text))
+        drifts.append("dump() differs from Dump(P) of the specification: %r vs %r" % (textT, model_text))
         stats["skipped_due_to_drift"] = stats.get("skipped_due_to_drift", 0) + 1
         base_jobs = [("plain-real-dump", [L("?", t) for t in text1.split("\n")[:-1]], False)]
     else:
@@ -521,15 +527,41 @@ def replay_case(ctx, case, rng, canonical, full, stats, armor_hdrs, armor_fields
                     continue
                 if api in ("Dsc", "Changes", "Dsc.iter", "Changes.iter") and zone and (form not in ("str", "bytes") or api.endswith(".iter")):
                     stats["gpgmv_zone_divergences"] = stats.get("gpgmv_zone_divergences", 0) + 1
-                    if stats["gpgmv_zone_divergences"] <= 2:
-                        ctx.drift("UNSPECIFIED (%s): input %r: %s" % (GPGMV_ZONE, make_input("lines_nl", texts), msg))
+                    if not has_ws(lines) and stats.setdefault("gpgmv_zone_logged", 0) < 2:
+                        stats["gpgmv_zone_logged"] += 1
+                        drifts.append("UNSPECIFIED (%s): input %r: %s" % (GPGMV_ZONE, make_input("lines_nl", texts), msg))
                 elif diag:
-                    ctx.drift("white-space-only line variant %s: %s" % (name, msg))
+                    drifts.append("white-space-only line variant %s: %s" % (name, msg))
                 elif api == "one" and np_ > 1:
-                    ctx.drift("Deb822(x) on a multi-paragraph document: %s" % msg)
+                    drifts.append("Deb822(x) on a multi-paragraph document: %s" % msg)
                 else:
                     bad.append((job, msg))
     return bad
+
+
+def replay_chunk(args):
+    """replay a slice of the CASE list (runs in a worker process in the thorough tier);
+    every case has its own seeded generator, so the result does not depend on the slicing"""
+    seed, repo, items, k, quick, armor_hdrs, armor_fields = args
+    import sys
+    lib = os.path.join(repo, "lib")
+    if lib not in sys.path:
+        sys.path.insert(0, lib)
+    stats = {"runs": 0, "full": 0}
+    drifts, bad = [], []
+    for idx, case in items:
+        nfields = sum(len(p) for p in case["doc"])
+        for c in range(k):
+            crng = random.Random("%s-case-%d-%d" % (seed, idx, c))
+            full = (nfields <= 2) if quick else (nfields <= 3 and c == 0)
+            stats["full"] += full
+            b = replay_case(drifts, case, crng, canonical=(c == 0 and idx % 2 == 0), full=full, stats=stats,
+                            armor_hdrs=armor_hdrs, armor_fields=armor_fields, sig_bools=(True,) if quick else (True, False))
+            bad += [(idx, job, msg) for job, msg in b]
+        if len(bad) >= 5:
+            break
+        del drifts[20:]
+    return stats, drifts, bad
 
 
 # ------------------------------------------------------------------ (b) recorded documents
@@ -715,8 +747,8 @@ def run(ctx):
     quick = ctx.tier == "quick"
     rng = ctx.rng
     ctx.import_repo()
-    workers = min(8, core.NCPU)
-    workers = min(workers, int(os.environ.get("VERIF_TLC_WORKERS", "8") or 8))
+    budget = int(os.environ.get("VERIF_TLC_WORKERS", "0") or 0) or core.NCPU     # TLC workers in use at a time
+    workers = max(2, min(8, budget // 2))
     maxtotal = 3 if quick else 4            # documents emitted as CASE lines and replayed
     armor_fields = 2 if quick else 3        # single paragraphs checked inside armor
     armor_hdrs = [0, 1] if quick else [0, 1, 2]
@@ -745,7 +777,7 @@ def run(ctx):
         return s + "".join("INVARIANT %s\n" % i for i in inv)
 
     hdrs = "{%s}" % ", ".join(map(str, armor_hdrs))
-    inv_deep = ["RoundTrip", "ParseOneOk", "CommentInvariant", "SeparatorInvariant"]
+    inv_deep = ["RoundTrip", "ParseOneOk", "CommentInvariant"]
     light = [
         dict(name="lts", cfg="MC_Deb822Reader_lts.cfg", workers=1, tags={"EDGE"}),
         dict(name="lts_nows", cfg="MC_Deb822Reader_lts_nows.cfg", workers=1, tags={"EDGE"}),
@@ -758,11 +790,11 @@ def run(ctx):
         ]
     else:
         heavy = [
+            dict(name="bnd_deep", cfg=bnd_cfg(inv_deep, MaxTotal="5"), workers=workers, tags=set()),
             dict(name="bnd_docs", cfg=bnd_cfg(inv_multi, MaxTotal=str(maxtotal), Emit="TRUE"), workers=workers, tags={"CASE"}),
             dict(name="bnd_armor", cfg=bnd_cfg(inv_armor, MaxPara="1", MaxTotal=str(armor_fields), ArmorHdrs=hdrs),
                  workers=workers, tags=set()),
             dict(name="bnd_wide", cfg=bnd_cfg(inv_multi[:-1], MaxTotal="9", MaxCont="1", ShapeMode="1"), workers=workers, tags=set()),
-            dict(name="bnd_deep", cfg=bnd_cfg(inv_deep, MaxTotal="5"), workers=workers, tags=set()),
         ]
     controls = NEG_CONTROLS if not quick else [NEG_CONTROLS[ctx.seed % len(NEG_CONTROLS)], NEG_CONTROLS[(ctx.seed + 2) % len(NEG_CONTROLS)]]
     for const, val, inv in controls:
@@ -773,15 +805,12 @@ def run(ctx):
     def one(j):
         return core.run_tlc("Deb822Reader", j["cfg"], ctx.work, workers=j["workers"], want_tags=j["tags"], timeout=timeout)
 
-    # the heavy configurations one after the other with all workers, the light ones beside them
-    with ThreadPoolExecutor(max_workers=3) as ex:
-        f_heavy = ex.submit(lambda: [one(j) for j in heavy])
-        f_light = [ex.submit(one, j) for j in light[:2]]
-        r_light = [f.result() for f in f_light]
-        f_light = [ex.submit(one, j) for j in light[2:]]
-        r_light += [f.result() for f in f_light]
+    # the heavy configurations in two chains sharing the worker budget, the light ones (1 worker) beside them
+    with ThreadPoolExecutor(max_workers=2) as hx, ThreadPoolExecutor(max_workers=2) as lx:
+        f_heavy = [hx.submit(one, j) for j in heavy]
+        f_light = [lx.submit(one, j) for j in light]
         jobs = light + heavy
-        results = r_light + f_heavy.result()
+        results = [f.result() for f in f_light + f_heavy]
     res = {}
     for j, r in zip(jobs, results):
         ctx.tlc_runs.append({"module": "Deb822Reader", "config": j["name"], "generated": r.generated, "distinct": r.distinct,
@@ -818,28 +847,41 @@ def run(ctx):
     tm["tlc_design"] = round(time.time() - t_, 1)
     t_ = time.time()
     # 2. (a) replay of every CASE
-    stats = {"runs": 0}
-    n_viol = 0
-    nfull = 0
-    for idx, case in enumerate(cases):
+    for case in cases:
         if case["parse"] != case["doc"]:
             raise core.MachineryError("CASE with Parse(Dump(P)) # P although RoundTrip holds")
-        nfields = sum(len(p) for p in case["doc"])
-        k = 1 if quick else 2
+    k = 1 if quick else 2
+    items = list(enumerate(cases))
+    nproc = 1 if quick else max(1, min(8, budget))
+    nchunks = 1 if nproc == 1 else nproc * 6
+    chunks = [(ctx.seed, ctx.repo, items[i::nchunks], k, quick, armor_hdrs, armor_fields) for i in range(nchunks)]
+    if nproc == 1:
+        outs = [replay_chunk(c) for c in chunks]
+    else:
+        import multiprocessing
+        with multiprocessing.get_context("fork").Pool(nproc) as pool:
+            outs = pool.map(replay_chunk, chunks)
+    stats = {}
+    all_bad = []
+    n_unspec_logged = 0
+    for st, drifts, bad in outs:
+        for kk, v in st.items():
+            stats[kk] = stats.get(kk, 0) + v
+        for d in drifts:
+            if d.startswith("UNSPECIFIED"):
+                n_unspec_logged += 1
+                if n_unspec_logged > 2:
+                    continue
+            ctx.drift(d)
+        all_bad += bad
+    all_bad.sort(key=lambda x: (x[0], x[1].get("variant", "") != "plain", x[1].get("variant", ""),
+                                FORMS.index(x[1]["form"]), x[1]["api"]))
+    for idx, job, msg in all_bad[:5]:
+        ctx.violation({"kind": "doc", "job": job, "shape": cases[idx]["shape"]}, msg)
+    for idx, case in items:
         for c in range(k):
-            crng = random.Random("%s-case-%d-%d" % (ctx.seed, idx, c))
-            full = (nfields <= 2) if quick else (nfields <= 3 and c == 0)
-            nfull += full
-            bad = replay_case(ctx, case, crng, canonical=(c == 0 and idx % 2 == 0), full=full, stats=stats,
-                              armor_hdrs=armor_hdrs, armor_fields=armor_fields, sig_bools=(True,) if quick else (True, False))
             ctx.case_seen(("case", skey(case["shape"])), nontrivial=bool(case["doc"]))
-            for job, msg in bad:
-                n_viol += 1
-                ctx.violation({"kind": "doc", "job": job, "shape": case["shape"]}, msg)
-            if n_viol >= 5:
-                break
-        if n_viol >= 5:
-            break
+    nfull = stats.pop("full", 0)
     ctx.traces += len(cases)
     ctx.evaluations += stats["runs"]
     ctx.extra["replay"] = dict(sorted(stats.items()))
@@ -865,9 +907,29 @@ def run(ctx):
         final_nl = not (lines[-1]["text"] != "" and rng.random() < 0.3)
         traces.append(record(lines, form, final_nl))
         meta.append({"texts": [ln["text"] for ln in lines], "form": form, "final_nl": final_nl})
+    # diagnostic documents: walks over the emitted automaton (junk, stray PGP lines, ws-only lines);
+    # validated in the same TLC batch, a rejection is spec_drift only
+    init0 = [e["from"] for e in edges if not e["from"]["raw"] and e["from"]["atBeg"] and e["from"]["first"]
+             and not e["from"]["stopped"] and not e["from"]["pay"] and not e["from"]["pre"] and e["from"]["gst"] == "SAFE"][0]
+    g = LTS([dict(e, op=e["c"], args=[e["k"]], res=e["b"]) for e in edges if not e["from"]["raw"]], init0)
+    init = [g.init]
+    nwalk = 120 if quick else 1500
+    wtr, wmeta = [], []
+    for i in range(nwalk):
+        lines = walk_doc(rng, g, init[0], rng.randint(3, 25))
+        if not lines:
+            continue
+        check_domain(lines)
+        wtr.append(record(lines, FORMS[i % len(FORMS)]))
+        wmeta.append([ln["text"] for ln in lines])
     tm["record"] = round(time.time() - t_, 1)
     t_ = time.time()
-    rejected, info = validate(ctx, traces)
+    rej_all, info = validate(ctx, traces + wtr)
+    rejected = [i for i in rej_all if i <= len(traces)]
+    wrej = [i - len(traces) for i in rej_all if i > len(traces)]
+    ctx.extra["diagnostic_walks"] = {"documents": len(wtr), "rejected": len(wrej)}
+    for i in wrej[:5]:
+        ctx.drift("automaton walk not explained (diagnostic): %r at line %d" % (wmeta[i - 1], info.get(i + len(traces), 0) + 1))
     tm["validate"] = round(time.time() - t_, 1)
     t_ = time.time()
     ctx.traces += len(traces)
@@ -889,25 +951,7 @@ def run(ctx):
                       % (at + 1, m["texts"][at] if at < len(m["texts"]) else None, m["texts"], m["form"],
                          traces[i - 1]["obs"][at] if at < len(traces[i - 1]["obs"]) else None))
 
-    # 4. diagnostic: walks over the emitted automaton (junk, stray PGP lines, ws-only lines) -> drift only
-    init0 = [e["from"] for e in edges if not e["from"]["raw"] and e["from"]["atBeg"] and e["from"]["first"]
-             and not e["from"]["stopped"] and not e["from"]["pay"] and not e["from"]["pre"] and e["from"]["gst"] == "SAFE"][0]
-    g = LTS([dict(e, op=e["c"], args=[e["k"]], res=e["b"]) for e in edges if not e["from"]["raw"]], init0)
-    init = [g.init]
-    nwalk = 120 if quick else 1500
-    wtr, wmeta = [], []
-    for i in range(nwalk):
-        lines = walk_doc(rng, g, init[0], rng.randint(3, 25))
-        if not lines:
-            continue
-        check_domain(lines)
-        wtr.append(record(lines, FORMS[i % len(FORMS)]))
-        wmeta.append([ln["text"] for ln in lines])
-    wrej, winfo = validate(ctx, wtr, with_controls=False) if wtr else ([], {})
-    ctx.extra["diagnostic_walks"] = {"documents": len(wtr), "rejected": len(wrej)}
-    for i in wrej[:5]:
-        ctx.drift("automaton walk not explained (diagnostic): %r at line %d" % (wmeta[i - 1], winfo.get(i, 0) + 1))
-    tm["walks"] = round(time.time() - t_, 1)
+    # 4. diagnostic walks under the non-default strictness flag (thorough)
     if not quick:
         g2 = LTS([dict(e, op=e["c"], args=[e["k"]], res=e["b"]) for e in res["lts_nows"].printed["EDGE"] if not e["from"]["raw"]], init0)
         wtr2, wmeta2 = [], []
